@@ -24,7 +24,7 @@ for n in names:
     files = sorted({l[6:].strip() for l in open(os.path.join(root, n, "patch.diff")) if l.startswith("+++ b/")})
     first = "missed, then caught" if "history" in m else "caught"
     if "obsolete" in m:
-        first += "; obsolete since 5e5dc73"
+        first += "; obsolete since " + re.search(r"fix (\w+)", m["obsolete"]).group(1)
         if sig == "MISSED":
             sig = "(" + ((m["checks"].get(pid, {}).get("first_signatures") or ["caught before the fix"])[0][:60]) + ")"
             mm2 = re.search(r"(C\d\d\|[^\s:]+)", sig)
